@@ -17,6 +17,7 @@ import (
 
 type Engine struct {
 	privateAllocs sync.Map // *ssa.Alloc -> bool (allocIsPrivate)
+	errVarIDs     map[*ssa.Global]int
 	repo    string
 	modPath string
 	fset    *token.FileSet
@@ -156,6 +157,21 @@ func (e *Engine) load(pkgPaths []string) error {
 }
 
 func (e *Engine) globalFor(v *types.Var) *ssa.Global { return e.globals[v] }
+
+// errVarID: a small number identifying a package-level error variable (stable within one run).
+func (e *Engine) errVarID(g *ssa.Global) int {
+	e.mu.Lock()
+	defer e.mu.Unlock()
+	if e.errVarIDs == nil {
+		e.errVarIDs = map[*ssa.Global]int{}
+	}
+	if id, ok := e.errVarIDs[g]; ok {
+		return id
+	}
+	id := len(e.errVarIDs) + 1
+	e.errVarIDs[g] = id
+	return id
+}
 
 func (e *Engine) typesPkg(path string) *types.Package {
 	if p, ok := e.allPkgs[path]; ok {
